@@ -111,6 +111,59 @@ PROPS["C08"] = dict(
     level_note="fragments with offset+length beyond 65535 or with contradictory last-fragment flags are malformed input and belong to C07",
 )
 
+NET_REAL = ["stack (stack.go, nic.go, route.go, transport_demuxer.go, linkaddrcache.go)", "protocol/network/ipv4, ipv6, arp, fragmentation, hash",
+            "protocol/transport/tcp (all of it: endpoint, connect, accept, snd, rcv, sack, reno, cubic, timer, segment*)", "protocol/transport/udp",
+            "protocol/header", "pkg/buffer, pkg/seqnum, pkg/sleep (Go commitSleep), pkg/tmutex, pkg/waiter, pkg/ilist", "protocol/ports"]
+NET_STUBS = ["NIC and wire: in-memory link endpoints registered through stack.RegisterLinkEndpoint; the simulator delivers, drops, duplicates, reorders, delays and replays frames",
+             "wall clock and all timers: testing/synctest fake clock; order of same-instant timers: seeded (runtime overlay)",
+             "goroutine scheduling: one P, no time-slice pre-emption (runtime overlay), GC off during a run; seeded runtime.Gosched at verif schedule points and at every frame emission",
+             "crypto randomness (pkg/rand): seeded stream, one-shot queue to place initial sequence numbers",
+             "runtime.gopark/goready + amd64 assembly of pkg/sleep: channel parker (verif hook)", "log output: discarded"]
+NET_ASSUME = ["a clean batch is evidence, not proof", "true parallel data races are invisible to a one-P cooperative scheduler",
+              "link endpoints hand the stack packets whose first view holds all headers, as every shipped link endpoint does"]
+
+PROPS["C01"] = dict(
+    engine="netsim", level="exploration",
+    quick=dict(runs=24000, workers=16, stall_s=180),
+    thorough=dict(budget_s=900, workers=16, stall_s=300),
+    rule="one evaluation = one seeded run of two real stacks joined by the simulated wire: 1-3 TCP connections, data both ways at once (position-keyed "
+         "bytes), random write/read chunking and reader stalls, per-run swarm configuration (IPv4/IPv6, SACK per side, Reno/CUBIC, MTU 68-9000, "
+         "send/receive buffers 1 KB-1 MB, initial sequence numbers placed just below 2^31/2^32 on either side), wire faults drop/duplicate/reorder/"
+         "delay/stale-replay with a finite budget, seeded yields; then a fault-free drain. non-trivial = at least one fault fired and a retransmission was "
+         "seen on the wire; distinct = distinct hash of the full event log (every emitted and injected frame with its fake timestamp)",
+    expected_probes=["retransmission_seen", "sack_block_emitted", "segment_straddles_2^31", "segment_straddles_2^32", "zero_window_advertised"],
+    real=NET_REAL, stubs=NET_STUBS, assumptions=NET_ASSUME,
+    hang_is_violation=True,
+    level_text="seeded search over fault schedules x interleavings x configurations against the real code of both stacks; after every Read the bytes "
+               "returned are compared with the writer's stream at that offset and the count with what the writer's Writes accepted; nothing may follow "
+               "end-of-stream; evidence, not proof",
+    level_note="timestamps are always negotiated between two of these stacks (the timestamps-off cases come from the scripted-peer checks); a replayed "
+               "final ACK of a finished connection legitimately validates as a SYN cookie and yields a fresh silent connection, which the harness closes",
+    interleaving_measure="hash of the event log (frames emitted/injected with fake timestamps), which changes with every schedule, fault and yield decision",
+)
+
+PROPS["C02"] = dict(
+    engine="netsim", level="exploration",
+    quick=dict(runs=16000, workers=16, stall_s=180),
+    thorough=dict(budget_s=900, workers=16, stall_s=300),
+    rule="one evaluation = one seeded run of the C01 world under the statement's fault model: a bounded number (1-6) of drops of non-RST packets of the "
+         "exchange (handshake, data, pure ACK, window update, FIN), no network delay (whatever is in flight arrives before the clock moves), all close "
+         "orders (one-sided and simultaneous Shutdown, half-close then more data, Close with and without unread data, Close during handshake), reader "
+         "stalls; then a fault-free drain of up to 400 simulated seconds (RFC 6298 back-off to the 60 s cap plus 63 s of handshake) and, for anything "
+         "unfinished, 3 more simulated hours to tell 'permanently quiet' from 'slow'. non-trivial = a fault fired and a retransmission was seen; distinct "
+         "= distinct event-log hash",
+    expected_probes=["dir_complete", "dir_failed-explicitly", "dir_reader-closed", "zero_window_advertised", "retransmission_seen", "known_finding_F3"],
+    real=NET_REAL, stubs=NET_STUBS, assumptions=NET_ASSUME + [
+        "a reset is never retransmitted by TCP and is not among the packets the statement lists: resets are not dropped by this check"],
+    hang_is_violation=True,
+    level_text="seeded search over drop schedules x close orders x interleavings x configurations; each direction must end complete (every accepted byte "
+               "read, then end-of-stream, never data after it) or with an explicit error on some side; a direction that is neither, with the wire empty and "
+               "not a single frame in 3 further simulated hours, is a silent stall; evidence, not proof",
+    level_note="the verdict rests on 'permanently quiet', not on the exact value of the 400 s bound; known finding F3 (no zero-window probe) is reported as "
+               "KNOWN-FINDING by signature (sender idle with data, last window seen 0, receiver's last segment re-opened the window), any other stall is a violation",
+    interleaving_measure="hash of the event log (frames emitted/injected with fake timestamps)",
+)
+
 PENDING = "check not built yet (work in progress; will be claimed once its simulation exists)"
 NOT_APPLICABLE = {
     "C15": "pure functions of their input (header codecs, RFC 1071 checksum): no schedule, clock, fault, I/O or second party for a simulator to control; "
